@@ -98,7 +98,8 @@ impl<'a> Gen<'a> {
             1 => (self.small_str(), Ty::Str),
             2 => {
                 let n = if self.rng.chance(1, 2) { self.rng.range(5, 9) as usize } else { self.rng.below(4) as usize };
-                let xs = (0..n).map(|_| if self.rng.chance(1, 5) { self.data(depth + 1).0 } else { self.small_num() }).collect();
+                let nested = self.rng.chance(1, 5);
+                let xs = (0..n).map(|_| if nested || self.rng.chance(1, 6) { self.data(depth + 1).0 } else { self.small_num() }).collect();
                 (E::List(xs), Ty::List)
             }
             _ => {
@@ -403,7 +404,14 @@ impl<'a> Gen<'a> {
             }
             9 => match if self.rng.chance(3, 5) { self.bound_of(&[Ty::List]) } else { None } {
                 Some(l) => {
-                    let target = self.alias_path(id(&l));
+                    // sometimes the operand is a value nested inside a bound one (inner list of a
+                    // bound list, field of the inputs record)
+                    let base = match self.rng.below(8) {
+                        0 => idx(id(&l), num(0)),
+                        1 => dot(id("inputs"), "xs"),
+                        _ => id(&l),
+                    };
+                    let target = self.alias_path(base);
                     let e = match self.rng.below(16) {
                         0 => call(id("sort"), vec![target]),
                         1 => call(id("reverse"), vec![target]),
@@ -451,7 +459,13 @@ impl<'a> Gen<'a> {
                 None => match self.bound_of(&[Ty::Rec]) {
                     Some(r) => {
                         let target = self.alias_path(id(&r));
-                        let e = match self.rng.below(4) {
+                        let e = match self.rng.below(10) {
+                            4 => E::Rec(vec![RK::Spread(target), RK::Dyn(st("k"), num(7))]),
+                            5 => E::Rec(vec![RK::Spread(target), RK::Spread(id(&r))]),
+                            6 => E::Rec(vec![RK::Dyn(st("k"), num(1)), RK::Spread(target)]),
+                            7 => call(id("reverse"), vec![dot(target, "x")]),
+                            8 => bin("*", dot(target, "x"), num(3)),
+                            9 => call(id("concat"), vec![dot(target, "x"), E::List(vec![num(0)])]),
                             0 => E::Rec(vec![RK::Spread(target), RK::Static("k".into(), num(1))]),
                             1 => call(id(*self.rng.pick(&["keys", "values", "entries"])), vec![target]),
                             2 => E::Rec(vec![RK::Static("k".into(), num(1)), RK::Spread(target)]),
